@@ -763,6 +763,22 @@ func runC19(c *fw.Ctx) {
 				}
 				holderL.UnsetTF("#1#0")
 				same("List.Get after UnsetTF through it", holderL.Get(1))
+				// ... down to the last element, alternately through both holders: an empty derived list is still that list
+				for k := 0; dl.Count() > 0 && k < 100; k++ {
+					if k%2 == 0 {
+						holderL.UnsetTF("#1#0")
+					} else {
+						holderO.UnsetTF(".d#0")
+					}
+				}
+				same("List.Get after the value was emptied through the holders", holderL.Get(1))
+				same("Object.Get after the value was emptied through the holders", holderO.Get("d"))
+				same("Object.GetList after the value was emptied through the holders", holderO.GetList("d"))
+				holderO.SetTF(".d#0", "refilled")
+				same("Object.Get after the emptied value was written to again", holderO.Get("d"))
+				if dl.Count() != 1 {
+					c.Violate("write-through-derived-value-lost", in(), "the emptied derived list itself receives the next tree-form write", dl.String())
+				}
 			} else {
 				do := fx.outer.(at.Object)
 				holderL.SetTF("#1.written", 7)
@@ -776,6 +792,22 @@ func runC19(c *fw.Ctx) {
 				}
 				holderL.UnsetTF("#1.written")
 				same("List.Get after UnsetTF through it", holderL.Get(1))
+				// ... down to the last field, alternately through both holders: an empty derived object is still that object
+				for k, key := range do.Keys().StringSlice() {
+					if k%2 == 0 {
+						holderL.UnsetTF("#1." + key)
+					} else {
+						holderO.UnsetTF(".d." + key)
+					}
+				}
+				same("List.Get after the value was emptied through the holders", holderL.Get(1))
+				same("Object.Get after the value was emptied through the holders", holderO.Get("d"))
+				same("List.GetObject after the value was emptied through the holders", holderL.GetObject(1))
+				holderL.SetTF("#1.refilled", 1)
+				same("List.Get after the emptied value was written to again", holderL.Get(1))
+				if do.Count() != 1 {
+					c.Violate("write-through-derived-value-lost", in(), "the emptied derived object itself receives the next tree-form write", do.String())
+				}
 			}
 			// the holders are changed in ways that leave the slot of the derived value alone (other keys / other
 			// positions, one pair and several pairs per call, padding, removal of neighbours): it stays the identical
